@@ -511,6 +511,10 @@ func c14GenBig(r *engine.Run, emit func(c14BigCase)) {
 			}
 		}
 	}
+	// as many descriptor-less streams as fit (127, 128 and the maximum of 201)
+	for _, sl := range []int{13 + 5*127, 13 + 5*128 + 2, 1021} {
+		emit(c14BigCase{sl, 2, 0, false})
+	}
 }
 
 // ---- scenario "crc-collisions" ---------------------------------------------------------------------------
@@ -614,7 +618,7 @@ func init() {
 			},
 			&engine.Enum[c14BigCase]{
 				Name: "large-pmt",
-				Rule: "case = section padded to section_length in {180,400,1021} (thorough: 14 lengths around the packet limits up to the maximal 1021; 1..~48 streams, last ES_info_length > 255) x 2 content variants (the second with PCR adaptation fields) x pointer_field {0,1,100} x last-packet style; per case every first-packet size 1..184 x second packet full/7 bytes x request lists (all, none/empty, absent, PAT PID, first, last, reversed pair, present+absent, every 5th single stream and its complement, even, odd, first half, all but last, PMT PID + odd); oracle as in 'filter'; non-trivial = each (case, split, request)",
+				Rule: "case = section padded to section_length in {180,400,1021} (thorough: 14 lengths around the packet limits up to the maximal 1021; 1..~48 streams, last ES_info_length > 255) x 2 content variants (the second with PCR adaptation fields; plus sections of 127, 128 and 201 descriptor-less streams) x pointer_field {0,1,100} x last-packet style; per case every first-packet size 1..184 x second packet full/7 bytes x request lists (all, none/empty, absent, PAT PID, first, last, reversed pair, present+absent, every 5th single stream and its complement, even, odd, first half, all but last, PMT PID + odd); oracle as in 'filter'; non-trivial = each (case, split, request)",
 				Gen:  c14GenBig, Check: witnessEnum(c14CheckBig, witnessPSI), Batch: 1,
 			},
 			&engine.Enum[c14ForgeCase]{
